@@ -77,6 +77,26 @@ def main():
       sc = j.get("scenario")
       if sc is None:
         sc = mod.gen(j["seed"], idx, job.get("tier", "quick"))
+      if job.get("list_shrinks"):
+        cands = []
+        for cand in mod.shrink(sc):
+          cands.append(cand)
+          if len(cands) >= 40:
+            break
+        from sim.core import jdump as _jd
+
+        out.write(_jd({"idx": idx, "status": "shrinks", "candidates": cands}) + "\n")
+        continue
+      if job.get("gen_only"):
+        res.update({"status": "generated", "scenario": sc})
+        from sim.core import jdump as _jd
+
+        out.write(_jd(res) + "\n")
+        continue
+      if job.get("write_ahead_scenario"):
+        from sim.core import jdump as _jd
+
+        out.write(_jd({"start": idx, "scenario": sc}) + "\n")
       seams.set_policy(None)
       seams.set_alloc("NATIVE")
       r = mod.run(sc)
